@@ -25,7 +25,17 @@ def run_one(sd, props):
     tmp = tempfile.mkdtemp(prefix="dashu-seeded-")
     try:
         dst = os.path.join(tmp, "repo")
-        subprocess.check_call(["rsync", "-a", "--exclude", "target", "--exclude", ".git", REPO + "/", dst + "/"])
+        base = None
+        try:
+            base = json.load(open(os.path.join(sd, "meta.json"))).get("base")
+        except Exception:
+            pass
+        if base:
+            # a patch whose lines were later changed by a `fix:` commit is kept against the commit it was written for
+            os.makedirs(dst)
+            subprocess.check_call("git -C %s archive %s | tar -x -C %s" % (REPO, base, dst), shell=True)
+        else:
+            subprocess.check_call(["rsync", "-a", "--exclude", "target", "--exclude", ".git", REPO + "/", dst + "/"])
         p = subprocess.run(["patch", "-p1", "-s", "-i", os.path.join(sd, "patch.diff")], cwd=dst, stdout=subprocess.PIPE, stderr=subprocess.STDOUT, text=True)
         if p.returncode != 0:
             return name, {"error": "patch does not apply: " + p.stdout[-300:]}
